@@ -12,7 +12,13 @@ CONSTANTS
   FBKinds = {"ok", "openerr", "brk", "drop", "empty", "extra", "reorder"}
   MaxFaulty = 1
   HintKeyed = FALSE
+  Shuffles = {FALSE}
+  ShardReps = 0
+  ShardProcs = 0
+  ShardFlips = 0
+  InPlace = FALSE
 INVARIANT Honest
+INVARIANT OnlyWhoAnswers
 INVARIANT AllUpIsComplete
 INVARIANT FetchIsGreedy
 INVARIANT Emit
